@@ -221,3 +221,11 @@ TEXT.update({
 })
 for _p in ('C03', 'C04'):
     PENDING.pop(_p, None)
+
+# eqsim_ll (C08, C15): texts kept in checks/manifest_text_ll.py
+from checks.manifest_text_ll import TEXT_LL, ENGINE_LL  # noqa: E402
+TEXT.update(TEXT_LL)
+if not any(e['name'] == ENGINE_LL['name'] for e in ENGINES):
+    ENGINES.append(ENGINE_LL)
+for _p in TEXT_LL:
+    PENDING.pop(_p, None)
